@@ -110,6 +110,12 @@ package shutterservice
 //@ func (*EventTriggerDefinition).UnmarshalBytes
 //@   requires d != nil
 //@   ensures ret0 == nil ==> validDef(d)
+//@ // the encoding is returned in memory allocated by this call (it is not shared with later encodings)
+//@ func (*EventTriggerDefinition).MarshalBytes
+//@   requires d != nil
+//@   ensures fresh(ret0)
+//@   maypanic   // the explicit panic on an rlp.Encode error (writer is a bytes.Buffer, value is RLP-encodable: A-rlp)
+//@   opt frame = off
 //@ // (positions 1..len(IntArgs) hold the integer arguments, the remaining len(ByteArgs) positions the byte strings;
 //@ // the element-wise statement for the byte strings is not proved: boxed slices made the invariant step time out)
 //@ func (*ValuePredicate).EncodeRLP
@@ -361,3 +367,7 @@ package shutterservice
 //@   ensures forall i :: 0 <= i && i < len(keys.Keys) ==> (eons[i] == int64(keys.Eon) && identities[i] == keys.Keys[i].IdentityPreimage)
 //@   invariant len(eons) == rangeindex + 1 && len(identities) == rangeindex + 1
 //@   invariant forall i :: 0 <= i && i <= rangeindex ==> (eons[i] == int64(keys.Eon) && identities[i] == keys.Keys[i].IdentityPreimage)
+//@ // the comparison handed to sort.Slice orders the elements of the slice being sorted (the copy), byte-wise
+//@ func sortIdentityPreimages$1
+//@   requires 0 <= i && i < len(sorted) && 0 <= j && j < len(sorted)
+//@   ensures ret0 <==> bytesLT(content(sorted[i]), content(sorted[j]))
